@@ -214,6 +214,31 @@ class Opaque:
         return "Opaque(%s)" % self.why
 
 
+BUF_ORIGIN = {}     # buffer id of a copy -> content token of its source at copy time
+
+
+def content_token(st, x):
+    """abstract content identity of an abstracted array/dict: where its buffer's content came from and the
+    in-place writes applied to that buffer since.  A copy nobody wrote to has the content of its source."""
+    w = tuple(ln for (b, ln) in st.writes if b == x.buf)
+    org = BUF_ORIGIN.get(x.buf)
+    if org is None:
+        return ("fresh", x.buf, w)
+    return org if not w else ("copy", org, w)
+
+
+def source_token(st, x):
+    """content the value was derived from: for a (possibly updated) copy, the content of its source at copy time"""
+    org = BUF_ORIGIN.get(x.buf)
+    return org if org is not None else content_token(st, x)
+
+
+def opaque_copy(st, o, why=None):
+    r = Opaque(why or ("copy of " + o.why), idx=o.idx)
+    BUF_ORIGIN[r.buf] = content_token(st, o)
+    return r
+
+
 class PState:
     def __init__(self):
         self.heap = {}
@@ -445,6 +470,14 @@ class PyExec:
             return r
         out = PState()
         out.pc = list(sts[0].pc[:k])
+        kw = 0
+        while all(len(s.writes) > kw for s in sts) and all(s.writes[kw] == sts[0].writes[kw] for s in sts):
+            kw += 1
+        out.writes = list(sts[0].writes[:kw])
+        for s in sts:                       # a write on any merged path counts (conservative for ownership checks)
+            for w in s.writes[kw:]:
+                if w not in out.writes[kw:]:
+                    out.writes.append(w)
         disj = simp(z3.Or(*conds))
         if not z3.is_true(disj):
             out.pc.append(disj)
@@ -461,7 +494,14 @@ class PyExec:
                 env[key] = v0
                 continue
             if any(isinstance(v, Opaque) for v in vals):
-                env[key] = Opaque("merge of abstracted values")
+                mo = Opaque("merge of abstracted values")
+                if all(isinstance(v, Opaque) for v in vals):
+                    srcs = {source_token(s_, v) for (s_, _), v in zip(pairs, vals)}
+                    if len(srcs) == 1:
+                        BUF_ORIGIN[mo.buf] = srcs.pop()      # every branch holds (a copy of) the same content
+                        if any(content_token(s_, v) != BUF_ORIGIN[mo.buf] for (s_, _), v in zip(pairs, vals)):
+                            out.writes.append((mo.buf, "updated on some merged path"))
+                env[key] = mo
                 continue
             if all(isinstance(v, Ref) and v.id == v0.id for v in vals if isinstance(v, Ref)) and all(isinstance(v, Ref) for v in vals):
                 env[key] = v0
@@ -843,6 +883,8 @@ class PyExec:
                 return ClassRef(n.id)
             if n.id == "super":
                 return Builtin("super")
+            if n.id in ("type", "hasattr", "getattr", "id", "set", "frozenset", "sys", "warnings", "textwrap") and self.opaque_unknown:
+                return Opaque("builtin " + n.id)
             if n.id in ("abs", "len", "range", "zip", "enumerate", "float", "int", "min", "max", "sum",
                         "isinstance", "list", "tuple", "bool", "round", "sorted", "print", "str", "dict", "reversed", "any", "all"):
                 return Builtin(n.id)
@@ -1004,6 +1046,8 @@ class PyExec:
             if isinstance(b, (tuple, list, dict)) and not is_sym(a):
                 r = a in b
                 return z3.BoolVal(r if isinstance(op, ast.In) else not r)
+            if isinstance(b, Opaque) or isinstance(a, Opaque):
+                return Opaque("membership test on an abstracted value")
             raise CheckerError("'in' on symbolic values")
         if isinstance(a, SymArr) or isinstance(b, SymArr):
             A, B = (a, b) if isinstance(a, SymArr) else (b, a)
@@ -1325,6 +1369,15 @@ class PyExec:
                 return len(o.shape)
             if a == "shape":
                 return tuple(o.shape)
+        if isinstance(o, Opaque) and a in ("copy",):
+            def _cp(ex, st_, args, kwargs, o=o):
+                return opaque_copy(st_, o)
+            return Hooked(_cp)
+        if isinstance(o, Opaque) and a in ("update", "sort", "fill", "append", "extend"):
+            def _mut(ex, st_, args, kwargs, o=o):
+                st_.writes.append((o.buf, getattr(ex, "cur_line", None)))
+                return None
+            return Hooked(_mut)
         if isinstance(o, Opaque):
             if a in ("T", "real", "imag", "flat"):
                 return Opaque(a + " view of " + o.why, buf=o.buf, idx=(("T", o.idx) if a == "T" else o.idx))
@@ -1408,7 +1461,7 @@ class PyExec:
         if isinstance(f, Closure):
             key = (f.cls + "." if f.cls else "") + f.node.name
             if key in self.hooks:
-                return self.hooks[key](self, st, args, kwargs)
+                return self.hooks[key](self, st, ([f.self_ref] if f.self_ref is not None else []) + args, kwargs)
             if key in self.abstract:
                 self.abstracted.append("%s line %s: call to %s abstracted" % (self.mod.relpath, n.lineno, key))
                 return z3.Real("abs!%s!%d" % (key, next(Ref._ids)))
@@ -1447,7 +1500,7 @@ class PyExec:
             if sn_ == "arange" and args and isinstance(args[0], Opaque):
                 return Opaque("arange", idx=("arange", id(args[0])))
             if sn_ == "array" and args and isinstance(args[0], Opaque):
-                return Opaque("copy of " + args[0].why, idx=args[0].idx)      # np.array copies: new buffer, same index function
+                return opaque_copy(st, args[0])      # np.array copies: new buffer, same index function
             if f.name.split(".")[-1] in ("asarray", "ascontiguousarray", "asanyarray", "atleast_1d", "atleast_2d", "ravel", "reshape") \
                     and args and isinstance(args[0], Opaque):
                 # these return the same memory when no conversion is needed
